@@ -218,6 +218,9 @@ func c15Check(c *Ctx, maxRuns int) {
 						key = fmt.Sprintf("%v", hist)
 					}
 					c.Count(key)
+					if c.Res.Evaluations%256 == 0 {
+						vrt.Forget()
+					}
 					if err != nil && !killed {
 						c.Violation("write-result-error", fmt.Sprintf("history %+v: %v", hist, err), hist)
 						continue
